@@ -53,6 +53,7 @@ type Run struct {
 	Reach     []string // vacuity witnesses: tags that must be reached on some path
 	Budget    time.Duration
 	BudgetIsViolation bool
+	StopAfter         int // stop the run after this many violations (it is broken anyway)
 }
 
 // Property describes how one property is decided.
@@ -544,7 +545,7 @@ func runProperty(prop *Property, tier, replayPath string, workers int, solver st
 			"paths_completed": res.Completed, "paths_infeasible": res.Infeasible, "paths_assumed_away": res.Assumed,
 			"solver_decided_branches": res.Decisions, "fork_choices": res.Choices, "queries": res.Queries,
 			"solver_s": round2(res.SolverTime.Seconds()), "obligations": res.Obligations, "discharged": res.Discharged,
-			"violations": len(res.Violations), "reached": res.Reached, "wall_s": round2(res.Wall.Seconds()),
+			"violations": res.TotalViolations, "reached": res.Reached, "wall_s": round2(res.Wall.Seconds()),
 			"exhaustive": res.Exhaustive, "interpreted_instructions": res.Steps,
 		}
 		if len(res.Covers) > 0 {
@@ -570,7 +571,7 @@ func runProperty(prop *Property, tier, replayPath string, workers int, solver st
 		for _, k := range order {
 			vs := groups[k]
 			v := vs[0]
-			allViolations += len(vs)
+			allViolations += int(res.ViolationCounts[k])
 			var kf *knownFinding
 			for n := range known.Findings {
 				if known.Findings[n].matches(prop.ID, v) {
@@ -597,7 +598,7 @@ func runProperty(prop *Property, tier, replayPath string, workers int, solver st
 			rf.Native = log
 			b, _ := json.MarshalIndent(rf, "", " ")
 			os.WriteFile(path, b, 0o644)
-			fmt.Printf("[%s/%s] counterexample (%d paths): %s: %s [tag %q] at %s\n  inputs: %v\n", prop.ID, run.Name, len(vs), v.Kind, v.Msg, v.Tag, v.Where, compactInputs(v))
+			fmt.Printf("[%s/%s] counterexample (%d paths): %s: %s [tag %q] at %s\n  inputs: %v\n", prop.ID, run.Name, res.ViolationCounts[k], v.Kind, v.Msg, v.Tag, v.Where, compactInputs(v))
 			for _, n := range v.Notes {
 				fmt.Println("  note:", n)
 			}
@@ -761,7 +762,7 @@ func mkConfig(run Run, workers int, solver string, trace bool) interp.Config {
 		Harness: run.Harness, HarnessPkg: run.Pkg, Params: run.Params, Overrides: run.Overrides,
 		DelayBound: run.Delay, SchedLIFO: run.LIFO, Workers: workers, SolverBin: solver, Trace: trace,
 		MaxPaths: run.MaxPaths, MaxSteps: run.MaxSteps, MaxDepth: run.MaxDepth, MaxEnum: run.MaxEnum, Race: run.Race,
-		BudgetIsViolation: run.BudgetIsViolation,
+		BudgetIsViolation: run.BudgetIsViolation, StopAfterViolations: run.StopAfter,
 	}
 	if trace {
 		cfg.Workers = 1
